@@ -140,10 +140,20 @@ theorem QInvB.afterPop {G : α → Prop} {n : Nat} {live : List Nat} {q q' : Hea
       omega
     · exact hall y ((hmem' y).mpr ⟨hy, hya⟩)
 
-/-- One iteration of the main loop of `genericWith` is total and advances the invariant. -/
-theorem genericIter_ok {G : α → Prop} (L : OrderLaws α) (gs : GoodSet G) (chk : Bool) (m : Method)
-    (hcl : UpdClosed G m) (n k : Nat) (live : List Nat) (st : State α) (dend : Dendrogram α)
-    (M : Mat α) (hk : k + 1 < n) (inv : GenInv G n k live st dend M) :
+/-- The pair `(a, b)` that the next iteration of the main loop picks in state `st` with matrix `M`:
+`a` is the top of the heap after the repair loop, `b = nearest[a]`. -/
+def GenericPick (chk : Bool) (M : Mat α) (st : State α) (a b : Nat) : Prop :=
+  ∃ st1, genericRepair chk M (M.n + 2) st = .ok st1 ∧ st1.queue.peek = some a ∧
+    st1.nearest[a]? = some b
+
+/-- One iteration of the main loop of `genericWith` is total and advances the invariant.
+RUN-DEPENDENT form: the values written by the update of the pair that this iteration picks are
+good (`UpdGoodAt`); no closure of `G` under the formula. -/
+theorem genericIter_ok' {G : α → Prop} (L : OrderLaws α) (gs : GoodSet G) (chk : Bool) (m : Method)
+    (n k : Nat) (live : List Nat) (st : State α) (dend : Dendrogram α)
+    (M : Mat α) (hk : k + 1 < n) (inv : GenInv G n k live st dend M)
+    (hgood : ∀ a b, a ∈ live → b ∈ live → a < b → GenericPick chk M st a b →
+      UpdGoodAt G chk m st.sizes M live a b) :
     ∃ st' dend' M' a, a ∈ live ∧
       genericIter chk m (st, dend, M) = .ok (st', dend', M') ∧
       GenInv G n (k + 1) (live.filter (· ≠ a)) st' dend' M' := by
@@ -172,10 +182,10 @@ theorem genericIter_ok {G : α → Prop} (L : OrderLaws α) (gs : GoodSet G) (ch
   obtain ⟨dist, hdist, gdist⟩ := hM.get chk a b hab (hrep.lt_n b hb)
   -- update
   have hq2 := QInvB.afterPop q1 a b hb hab inv2 hprio2 hlive2
-  obtain ⟨st3, M3, eupd, q3, hM3, hsz3, hact3⟩ := genericUpdate_ok L gs chk m hcl live
+  obtain ⟨st3, M3, eupd, q3, hM3, hsz3, hact3⟩ := genericUpdate_ok' L gs chk m live
     { st1 with queue := q2 } M (by simp only []; rw [hact1]; exact hrep)
-    (by simp only []; rw [hsz1]; exact inv.prim.sizes_sz)
-    (by simp only []; rw [hsz1]; exact inv.sizes_pos) a b ha hb hab hq2 hM
+    (by simp only []; rw [hsz1]; exact inv.prim.sizes_sz) a b ha hb hab hq2 hM
+    (by simp only []; rw [hsz1]; exact hgood a b ha hb hab ⟨st1, e1, hpeek, hnb⟩)
   simp only [] at hsz3 hact3
   -- merge
   obtain ⟨st4, dend4, s, act4, emerge, prim4, ⟨hbn, hst4⟩, hs, hdend4⟩ := PrimInv.merge_step chk n k live
@@ -210,6 +220,24 @@ theorem genericIter_ok {G : α → Prop} (L : OrderLaws α) (gs : GoodSet G) (ch
       have := inv.sizes_pos i (by rw [← hsz1, ← hsz3]; exact hi')
       simpa [hsz3, hsz1] using this
 
+/-- `UpdClosed` gives the run-dependent hypothesis at every state satisfying the invariant. -/
+theorem GenInv.updGoodAt_of_updClosed {G : α → Prop} {n k : Nat} {live : List Nat} {st : State α}
+    {dend : Dendrogram α} {M : Mat α} (inv : GenInv G n k live st dend M) (chk : Bool) {m : Method}
+    (hcl : UpdClosed G m) (a b : Nat) (ha : a ∈ live) (hb : b ∈ live) (hab : a < b) :
+    UpdGoodAt G chk m st.sizes M live a b :=
+  Kodama.updGoodAt_of_updClosed chk hcl inv.prim.sizes_sz inv.sizes_pos inv.mGood live
+    inv.prim.rep.lt_n a b ha hb hab
+
+/-- The closure form (a corollary of `genericIter_ok'`). -/
+theorem genericIter_ok {G : α → Prop} (L : OrderLaws α) (gs : GoodSet G) (chk : Bool) (m : Method)
+    (hcl : UpdClosed G m) (n k : Nat) (live : List Nat) (st : State α) (dend : Dendrogram α)
+    (M : Mat α) (hk : k + 1 < n) (inv : GenInv G n k live st dend M) :
+    ∃ st' dend' M' a, a ∈ live ∧
+      genericIter chk m (st, dend, M) = .ok (st', dend', M') ∧
+      GenInv G n (k + 1) (live.filter (· ≠ a)) st' dend' M' :=
+  genericIter_ok' L gs chk m n k live st dend M hk inv
+    (fun a b ha hb hab _ => inv.updGoodAt_of_updClosed chk hcl a b ha hb hab)
+
 /-- The bookkeeping invariant holds initially for any state with fresh `sizes` and `active`. -/
 theorem primInv_init (st : State α) (n : Nat) (data : Array α) (h2 : 2 ≤ n) (hs : n < 2147483648)
     (hl : 2 * data.size = n * (n - 1)) (hsz : st.sizes = Array.replicate n 1)
@@ -238,30 +266,76 @@ theorem primInv_init (st : State α) (n : Nat) (data : Array α) (h2 : 2 ≤ n) 
     inRange := by simp [rawOf, Dendrogram.new]
     comp := by intro x _ y _ hxy; simpa [rawOf, Dendrogram.new] using hxy }
 
-/-- The main loop of `genericWith` from any state satisfying the invariant. -/
-theorem genericLoop_ok {G : α → Prop} (L : OrderLaws α) (gs : GoodSet G) (chk : Bool) (m : Method)
-    (hcl : UpdClosed G m) (n : Nat) (h2 : 2 ≤ n) (st : State α) (dend : Dendrogram α) (M : Mat α)
-    (inv0 : GenInv G n 0 (List.range n) st dend M) :
+/-- `k + 1` iterations are `k` iterations followed by one more. -/
+theorem iterM_succ_right {σ : Type} (f : σ → R σ) : ∀ (k : Nat) (s : σ),
+    iterM f (k + 1) s = iterM f k s >>= f := by
+  intro k
+  induction k with
+  | zero =>
+    intro s
+    simp only [iterM, bind, Except.bind, pure, Except.pure]
+    cases f s <;> rfl
+  | succ k ih =>
+    intro s
+    show (f s >>= fun s' => iterM f (k + 1) s') = (f s >>= fun s' => iterM f k s') >>= f
+    cases h : f s with
+    | error e => rfl
+    | ok s' => exact ih s'
+
+/-- `iterM` succeeds and advances an invariant whose step may use that the current state has been
+REACHED from the start state. -/
+theorem iterM_ok_reach {σ : Type} (P : Nat → σ → Prop) (f : σ → R σ) (s0 : σ) :
+    ∀ (k : Nat),
+      (∀ j s, j < k → iterM f j s0 = .ok s → P j s → ∃ s', f s = .ok s' ∧ P (j + 1) s') →
+      P 0 s0 → ∃ s', iterM f k s0 = .ok s' ∧ P k s' := by
+  intro k
+  induction k with
+  | zero => intro _ h0; exact ⟨s0, rfl, h0⟩
+  | succ k ih =>
+    intro hstep h0
+    obtain ⟨s, e, hp⟩ := ih (fun j s hj => hstep j s (by omega)) h0
+    obtain ⟨s', e', hp'⟩ := hstep k s (by omega) e hp
+    refine ⟨s', ?_, hp'⟩
+    rw [iterM_succ_right, e]
+    exact e'
+
+/-- The main loop of `genericWith` from any state satisfying the invariant.  RUN-DEPENDENT form:
+at every state REACHED by the loop, the values written by the update of the picked pair are good. -/
+theorem genericLoop_ok' {G : α → Prop} (L : OrderLaws α) (gs : GoodSet G) (chk : Bool) (m : Method)
+    (n : Nat) (h2 : 2 ≤ n) (st : State α) (dend : Dendrogram α) (M : Mat α)
+    (inv0 : GenInv G n 0 (List.range n) st dend M)
+    (hgood : ∀ k live st' dend' M', k + 1 < n →
+      iterM (genericIter chk m) k (st, dend, M) = .ok (st', dend', M') →
+      GenInv G n k live st' dend' M' → ∀ a b, a ∈ live → b ∈ live → a < b →
+      GenericPick chk M' st' a b → UpdGoodAt G chk m st'.sizes M' live a b) :
     ∃ st1 dend1 M1, iterM (genericIter chk m) (n - 1) (st, dend, M) = .ok (st1, dend1, M1) ∧
       PrimLoopResult n dend1 M1 ∧ (∀ s ∈ dend1.steps.toList, G s.d) := by
-  have key := iterM_ok
+  have key := iterM_ok_reach
     (fun j (s : State α × Dendrogram α × Mat α) => ∃ live, GenInv G n j live s.1 s.2.1 s.2.2)
-    (genericIter chk m) (n - 1) 0 (st, dend, M)
+    (genericIter chk m) (st, dend, M) (n - 1)
     (by
-      intro j s hj ⟨live, hinv⟩
-      obtain ⟨st, dend, M⟩ := s
-      simp only [Nat.zero_add] at hinv ⊢
-      obtain ⟨st', dend', M', a, _, e, hinv'⟩ :=
-        genericIter_ok L gs chk m hcl n j live st dend M (by omega) hinv
-      exact ⟨(st', dend', M'), e, _, hinv'⟩)
-    ⟨List.range n, by simpa using inv0⟩
+      intro j s hj hreach ⟨live, hinv⟩
+      obtain ⟨st', dend', M'⟩ := s
+      obtain ⟨st'', dend'', M'', a, _, e, hinv'⟩ :=
+        genericIter_ok' L gs chk m n j live st' dend' M' (by omega) hinv
+          (hgood j live st' dend' M' (by omega) hreach hinv)
+      exact ⟨(st'', dend'', M''), e, _, hinv'⟩)
+    ⟨List.range n, inv0⟩
   obtain ⟨⟨st1, dend1, M1⟩, e, live, hinv⟩ := key
-  simp only [Nat.zero_add] at hinv
   exact ⟨st1, dend1, M1, e,
     { obs := hinv.prim.obs
       steps_sz := hinv.prim.steps_sz
       raw := ⟨by simp [rawOf, hinv.prim.steps_sz], hinv.prim.inRange, hinv.prim.eff⟩
       mn := hinv.prim.mn }, hinv.dgood⟩
+
+/-- The closure form (a corollary of `genericLoop_ok'`). -/
+theorem genericLoop_ok {G : α → Prop} (L : OrderLaws α) (gs : GoodSet G) (chk : Bool) (m : Method)
+    (hcl : UpdClosed G m) (n : Nat) (h2 : 2 ≤ n) (st : State α) (dend : Dendrogram α) (M : Mat α)
+    (inv0 : GenInv G n 0 (List.range n) st dend M) :
+    ∃ st1 dend1 M1, iterM (genericIter chk m) (n - 1) (st, dend, M) = .ok (st1, dend1, M1) ∧
+      PrimLoopResult n dend1 M1 ∧ (∀ s ∈ dend1.steps.toList, G s.d) :=
+  genericLoop_ok' L gs chk m n h2 st dend M inv0
+    (fun _ _ _ _ _ _ _ inv a b ha hb hab _ => inv.updGoodAt_of_updClosed chk hcl a b ha hb hab)
 
 /-- Inputs in `G` (after squaring, for the methods that work on squares) give a good matrix. -/
 theorem squareData_good {G : α → Prop} (m : Method) (data : Array α)
@@ -280,14 +354,41 @@ theorem squareData_good {G : α → Prop} (m : Method) (data : Array α)
     have := h data[i] (by simp)
     simpa [hsq] using this
 
+/-- The state in which `genericWith` enters its main loop on a valid `n`-point matrix: fresh
+bookkeeping, the heap built from the initial nearest-neighbour scan, the (squared) input matrix. -/
+def genericStart (chk : Bool) (m : Method) (data : Array α) (n : Nat) :
+    R (State α × Dendrogram α × Mat α) := do
+  let M : Mat α := { data := squareData m data, n := n, acc := 0 }
+  let init ← (List.range (n - 1)).foldlM (genericInitRow chk M n)
+      (Array.replicate n Num.maxValue, Array.replicate n 0)
+  let queue ← (Heap.fresh n : Heap α).heapifyWith chk (fun _ => pure init.1)
+  pure ({ (State.fresh n : State α) with queue := queue, nearest := init.2 }, Dendrogram.new n, M)
+
+/-- **Run-dependent value hypothesis, model form (A).**  The (squared) inputs are good, and in every
+state REACHED by the main loop of `genericWith` (defined by iterating the loop body `genericIter`
+from the start state `genericStart`), the values that the update of the pair picked there
+(`GenericPick`: top of the heap after the repair loop and its candidate) WRITES into the matrix are
+good (`UpdGoodAt`).  Implied by the closure hypothesis (`genericRunGood_of_updClosed`). -/
+def GenericRunGood (G : α → Prop) (chk : Bool) (m : Method) (n : Nat) (data : Array α) : Prop :=
+  (∀ i (h : i < (squareData m data).size), G (squareData m data)[i]) ∧
+  ∀ s0, genericStart chk m data n = .ok s0 →
+    ∀ k st dend M live, k + 1 < n → iterM (genericIter chk m) k s0 = .ok (st, dend, M) →
+      st.active.Rep live n → ∀ a b, GenericPick chk M st a b →
+      UpdGoodAt G chk m st.sizes M live a b
+
 /-- `genericWith` on a valid matrix with good (squared, where the method works on squares)
 entries is the (total) loop followed by `relabel` and `sqrt`, and the raw steps of the loop form a
-spanning tree. -/
-theorem genericWith_eq {G : α → Prop} (L : OrderLaws α) (gs : GoodSet G) (chk : Bool) (m : Method)
-    (hcl : UpdClosed G m) (hmax : Num.isNaN (Num.maxValue : α) = false)
+spanning tree.  General RUN-DEPENDENT form: the hypothesis `hgood` speaks about the states reached
+by the loop from the start state (which satisfy the invariant `GenInv`). -/
+theorem genericWith_eq' {G : α → Prop} (L : OrderLaws α) (gs : GoodSet G) (chk : Bool) (m : Method)
+    (hmax : Num.isNaN (Num.maxValue : α) = false)
     (st : State α) (d : Dendrogram α) (data : Array α) (n : Nat) (h2 : 2 ≤ n)
     (hs : n < 2147483648) (hl : 2 * data.size = n * (n - 1))
-    (hin : ∀ i (h : i < (squareData m data).size), G (squareData m data)[i]) :
+    (hin : ∀ i (h : i < (squareData m data).size), G (squareData m data)[i])
+    (hgood : ∀ s0, genericStart chk m data n = .ok s0 → ∀ k live st' dend' M', k + 1 < n →
+      iterM (genericIter chk m) k s0 = .ok (st', dend', M') →
+      GenInv G n k live st' dend' M' → ∀ a b, a ∈ live → b ∈ live → a < b →
+      GenericPick chk M' st' a b → UpdGoodAt G chk m st'.sizes M' live a b) :
     ∃ (st1 : State α) (dend1 : Dendrogram α) (M1 : Mat α), PrimLoopResult n dend1 M1 ∧
       (∀ s ∈ dend1.steps.toList, G s.d) ∧
       genericWith chk m st d data n =
@@ -303,7 +404,14 @@ theorem genericWith_eq {G : α → Prop} (L : OrderLaws α) (gs : GoodSet G) (ch
     ⟨primInv_init _ n _ h2 hs hl' rfl rfl, q0, hin, by
       intro i hi
       simp [State.fresh], by simp [Dendrogram.new]⟩
-  obtain ⟨st1, dend1, M1, hloop, hres, hdg⟩ := genericLoop_ok L gs chk m hcl n h2 _ _ _ inv0
+  have hstart0 : genericStart chk m data n = .ok
+      ({ (State.fresh n : State α) with queue := q, nearest := init.2 }, Dendrogram.new n,
+        ({ data := squareData m data, n := n, acc := 0 } : Mat α)) := by
+    unfold genericStart
+    simp only [bind, Except.bind, einit, eheap]
+    rfl
+  obtain ⟨st1, dend1, M1, hloop, hres, hdg⟩ := genericLoop_ok' L gs chk m n h2 _ _ _ inv0
+    (hgood _ hstart0)
   refine ⟨st1, dend1, M1, hres, hdg, ?_⟩
   have hstart : ((Gen.heapReset (State.fresh n : State α).queue
         (State.fresh n : State α).queue.prio.size).prio, (State.fresh n : State α).nearest)
@@ -317,5 +425,111 @@ theorem genericWith_eq {G : α → Prop} (L : OrderLaws α) (gs : GoodSet G) (ch
   have hn0 : ¬ n = 0 := by omega
   simp only [bind, Except.bind, hn0, if_false, State.reset_eq_fresh, dendrogramReset_eq, hstart,
     einit, hheap, hloop]
+
+/-- The closure form (a corollary of `genericWith_eq'`). -/
+theorem genericWith_eq {G : α → Prop} (L : OrderLaws α) (gs : GoodSet G) (chk : Bool) (m : Method)
+    (hcl : UpdClosed G m) (hmax : Num.isNaN (Num.maxValue : α) = false)
+    (st : State α) (d : Dendrogram α) (data : Array α) (n : Nat) (h2 : 2 ≤ n)
+    (hs : n < 2147483648) (hl : 2 * data.size = n * (n - 1))
+    (hin : ∀ i (h : i < (squareData m data).size), G (squareData m data)[i]) :
+    ∃ (st1 : State α) (dend1 : Dendrogram α) (M1 : Mat α), PrimLoopResult n dend1 M1 ∧
+      (∀ s ∈ dend1.steps.toList, G s.d) ∧
+      genericWith chk m st d data n =
+        (relabel m st1.set dend1 >>= fun r =>
+          pure ({ st1 with set := r.1 }, sqrtSteps m r.2, M1)) :=
+  genericWith_eq' L gs chk m hmax st d data n h2 hs hl hin
+    (fun _ _ _ _ _ _ _ _ _ inv a b ha hb hab _ => inv.updGoodAt_of_updClosed chk hcl a b ha hb hab)
+
+/-- `genericWith` under the model-form run-dependent hypothesis `GenericRunGood`. -/
+theorem genericWith_eq_run {G : α → Prop} (L : OrderLaws α) (gs : GoodSet G) (chk : Bool)
+    (m : Method) (hmax : Num.isNaN (Num.maxValue : α) = false)
+    (st : State α) (d : Dendrogram α) (data : Array α) (n : Nat) (h2 : 2 ≤ n)
+    (hs : n < 2147483648) (hl : 2 * data.size = n * (n - 1))
+    (hrun : GenericRunGood G chk m n data) :
+    ∃ (st1 : State α) (dend1 : Dendrogram α) (M1 : Mat α), PrimLoopResult n dend1 M1 ∧
+      (∀ s ∈ dend1.steps.toList, G s.d) ∧
+      genericWith chk m st d data n =
+        (relabel m st1.set dend1 >>= fun r =>
+          pure ({ st1 with set := r.1 }, sqrtSteps m r.2, M1)) :=
+  genericWith_eq' L gs chk m hmax st d data n h2 hs hl hrun.1
+    (fun s0 hs0 k live st' dend' M' hk hreach inv a b _ _ _ hpick =>
+      hrun.2 s0 hs0 k st' dend' M' live hk hreach inv.prim.rep a b hpick)
+
+/-- The closure hypothesis implies the run-dependent one (so every closure-based theorem is a
+corollary of its run-dependent version). -/
+theorem genericRunGood_of_updClosed {G : α → Prop} (L : OrderLaws α) (gs : GoodSet G) (chk : Bool)
+    (m : Method) (hcl : UpdClosed G m) (hmax : Num.isNaN (Num.maxValue : α) = false)
+    (data : Array α) (n : Nat) (h2 : 2 ≤ n) (hs : n < 2147483648)
+    (hl : 2 * data.size = n * (n - 1))
+    (hin : ∀ i (h : i < (squareData m data).size), G (squareData m data)[i]) :
+    GenericRunGood G chk m n data := by
+  refine ⟨hin, ?_⟩
+  intro s0 hs0
+  have hl' : 2 * (squareData m data).size = n * (n - 1) := by rw [squareData_size]; exact hl
+  have hM0 : MGood G n ({ data := squareData m data, n := n, acc := 0 } : Mat α) :=
+    ⟨⟨h2, hs, hl'⟩, rfl, hin⟩
+  obtain ⟨init, q, einit, eheap, q0⟩ := genericInit_ok L gs chk hmax hM0 h2 hs
+  have inv0 : GenInv G n 0 (List.range n)
+      ({ (State.fresh n : State α) with queue := q, nearest := init.2 }) (Dendrogram.new n)
+      ({ data := squareData m data, n := n, acc := 0 } : Mat α) :=
+    ⟨primInv_init _ n _ h2 hs hl' rfl rfl, q0, hin, by
+      intro i hi
+      simp [State.fresh], by simp [Dendrogram.new]⟩
+  have hstart0 : genericStart chk m data n = .ok
+      ({ (State.fresh n : State α) with queue := q, nearest := init.2 }, Dendrogram.new n,
+        ({ data := squareData m data, n := n, acc := 0 } : Mat α)) := by
+    unfold genericStart
+    simp only [bind, Except.bind, einit, eheap]
+    rfl
+  rw [hstart0] at hs0
+  cases hs0
+  -- every reached state satisfies the invariant
+  have hreach : ∀ k, k + 1 ≤ n → ∀ s, iterM (genericIter chk m) k
+      ({ (State.fresh n : State α) with queue := q, nearest := init.2 }, Dendrogram.new n,
+        ({ data := squareData m data, n := n, acc := 0 } : Mat α)) = .ok s →
+      ∃ live, GenInv G n k live s.1 s.2.1 s.2.2 := by
+    intro k hk s hsk
+    obtain ⟨s', e, hp⟩ := iterM_ok_reach
+      (fun j (s : State α × Dendrogram α × Mat α) => ∃ live, GenInv G n j live s.1 s.2.1 s.2.2)
+      (genericIter chk m)
+      ({ (State.fresh n : State α) with queue := q, nearest := init.2 }, Dendrogram.new n,
+        ({ data := squareData m data, n := n, acc := 0 } : Mat α)) k
+      (by
+        intro j s hj _ ⟨live, hinv⟩
+        obtain ⟨st', dend', M'⟩ := s
+        obtain ⟨st'', dend'', M'', a, _, e, hinv'⟩ :=
+          genericIter_ok L gs chk m hcl n j live st' dend' M' (by omega) hinv
+        exact ⟨(st'', dend'', M''), e, _, hinv'⟩)
+      ⟨List.range n, inv0⟩
+    rw [hsk] at e
+    cases e
+    exact hp
+  intro k st' dend' M' live hk hsk hrep a b hpick
+  obtain ⟨live', inv⟩ := hreach k (by omega) _ hsk
+  have hll : live' = live := by
+    have e1 := inv.prim.rep.iter
+    have e2 := hrep.iter
+    simp only [] at e1
+    rw [e1] at e2
+    injection e2
+  subst hll
+  obtain ⟨st1, e1, hpeek, hnb⟩ := hpick
+  -- the picked pair is a live pair `a < b`
+  have hM := inv.mGood
+  have h2l : 2 ≤ live'.length := by have := inv.prim.llen; omega
+  obtain ⟨st1', e1', q1, _, _⟩ := genericRepair_ok L gs chk hM st'.active live' inv.prim.rep h2l
+    (M'.n + 2) st' live' rfl inv.q (fun x hx => Or.inr hx)
+    (by have := inv.prim.rep.length_le; rw [inv.prim.mn]; omega)
+  rw [e1] at e1'
+  cases e1'
+  obtain ⟨ha, y, hy, hay⟩ := q1.peek_has_larger L gs h2l inv.prim.rep.nodup hpeek
+  obtain ⟨b', hnb', hab, hbl⟩ := q1.near a ha y hy hay
+  rw [hnb] at hnb'
+  cases hnb'
+  have hb : b ∈ live' := by
+    rcases hbl with h | h
+    · exact h
+    · exact absurd h (by simp)
+  exact inv.updGoodAt_of_updClosed chk hcl a b ha hb hab
 
 end Kodama
